@@ -15,5 +15,17 @@ func init() {
 			},
 			Stubs:   []string{"ed25519 curve arithmetic is replaced in the engine by a validity-bit model (signature valid iff produced by Sign and not corrupted; a batch verifies iff all its members are valid) — the documented contract of ed25519consensus; the native replay runs the real signatures", "the unbatched auth scheme is a harness type with a validity flag (stands for secp256r1/bls, whose Verify is called one by one)"},
 			Outside: []string{"the signature schemes themselves (C17)", "more than maxTxs transactions, more than 2 cores, more than maxInvalid invalid signatures", "schedules beyond the preemption bound"}},
+		{Name: "tail", Pkg: "auth", Files: []string{"auth/c16_batch.go"}, Entry: "VerifC16Tail", Sched: true, Preempt: [2]int{0, 0},
+			Reach: []string{"accepted", "rejected"},
+			Redirects: map[string]string{
+				"crypto/ed25519.NewKeyFromSeed": "c16NewKeyModel",
+				ed + "Sign":                     "c16SignModel",
+				ed + "Verify":                   "c16VerifyModel",
+				ed + "NewBatch":                 "c16NewBatchModel",
+				"(*" + ed + "Batch).Add":        "c16BatchAddModel",
+				"(*" + ed + "Batch).Verify":     "c16BatchVerifyModel",
+			},
+			Stubs:   []string{"ed25519 curve arithmetic is replaced in the engine by a validity-bit model (signature valid iff produced by Sign and not corrupted; a batch verifies iff all its members are valid) — the documented contract of ed25519consensus; the native replay runs the real signatures", "the unbatched auth scheme is a harness type with a validity flag (stands for secp256r1/bls, whose Verify is called one by one)"},
+			Outside: []string{"the signature schemes themselves (C17)", "more than maxTxs transactions, more than 2 cores, more than maxInvalid invalid signatures", "schedules beyond the preemption bound"}},
 	}})
 }
